@@ -288,15 +288,28 @@ template <class M> static void check_lookups(const M &m, const Scan &s, Rng &rng
 template <class K> static void run_lookup(Ctx &ctx, EngCfg g) {
     Engine<K> e(ctx, g);
     int n = 0;
-    e.after_step = [&] { if (++n % 9 == 0) { ctx.cnt.add("states"); check_lookups(e.mesh, e.s, ctx.rng); } };
+    auto all_on = [&] { return e.mesh.has_vertex_bottom_up_incidences() && e.mesh.has_edge_bottom_up_incidences() && e.mesh.has_face_bottom_up_incidences(); };
+    e.after_step = [&] { if (++n % 9 == 0) {
+        // lookups are only used while the incidences are on; a state reached through switching them off and on again counts
+        if (!all_on()) { ctx.op("enable_bottom_up_incidences(1)"); e.mesh.enable_bottom_up_incidences(true); e.rescan(); ctx.cnt.add("lookup.states-after-reenabling"); }
+        ctx.cnt.add("states"); check_lookups(e.mesh, e.s, ctx.rng); } };
     e.run();
-    e.mesh.enable_bottom_up_incidences(true); e.rescan();
+    if (!all_on()) { ctx.op("enable_bottom_up_incidences(1)"); e.mesh.enable_bottom_up_incidences(true); e.rescan(); ctx.cnt.add("lookup.states-after-reenabling"); }
     ctx.cnt.add("states"); check_lookups(e.mesh, e.s, ctx.rng);
+    // the same state with all incidences recomputed from scratch (deleted-but-not-collected entities present in half of the cases)
+    int which = (int)ctx.rng.below(4);
+    ctx.op(std::string("recompute incidences: ") + (which == 0 ? "vertex" : which == 1 ? "edge" : which == 2 ? "face" : "all") + " off/on");
+    if (which == 0) { e.mesh.enable_vertex_bottom_up_incidences(false); e.mesh.enable_vertex_bottom_up_incidences(true); }
+    else if (which == 1) { e.mesh.enable_edge_bottom_up_incidences(false); e.mesh.enable_edge_bottom_up_incidences(true); }
+    else if (which == 2) { e.mesh.enable_face_bottom_up_incidences(false); e.mesh.enable_face_bottom_up_incidences(true); }
+    else { e.mesh.enable_bottom_up_incidences(false); e.mesh.enable_bottom_up_incidences(true); }
+    e.rescan(); if (e.model.any_pending()) ctx.cnt.add("lookup.states-recomputed-with-pending");
+    ctx.cnt.add("states"); ctx.cnt.add("lookup.states-after-reenabling"); check_lookups(e.mesh, e.s, ctx.rng);
 }
 static CaseFn mk_c10(const Args &a) {
     int steps = (int)a.num("steps", a.tier == "thorough" ? 60 : 24);
     return [=](Ctx &ctx) {
-        EngCfg g; g.chk_model = false; g.steps = steps; g.init_bu = 7; g.allow_toggle_bu = false; g.allow_set = false; g.max_v = 10;
+        EngCfg g; g.chk_model = false; g.steps = steps; g.init_bu = 7; g.allow_toggle_bu = (ctx.case_no / 5) % 2; g.full_bu_bias = true; g.allow_set = false; g.max_v = 10;
         if (ctx.case_no % 3 == 0) g.allow_dups = false;   // meshes without parallel edges: every lookup is decidable
         g.init_mode = (ctx.case_no % 2) ? 1 : -1;
         int k = (int)(ctx.case_no % 5);
@@ -438,6 +451,24 @@ template <class K> struct C11Probe {
             else if (v == 5) { rng.shuffle(l); cls = "permuted(closed)"; }
             else if (v == 6 && KIND == 0) { const auto &t2 = T[rng.below(T.size())]; auto vm2 = e.choose_cell_vertices(t2); auto l2 = e.realise_template(t2, vm2); e.rescan(); l.insert(l.end(), l2.begin(), l2.end()); cls = "two-closed-surfaces"; }
             else if (!lhf.empty()) { l.push_back(rng.pick(lhf)); cls = "extra-face"; }
+            return l;
+        }
+        if (mode == 6 || (mode == 7 && lc.empty())) {
+            // 1-3 fresh polygons whose edges are created one after the other with random orientations (so that the
+            // halfedges of an open set form arbitrary index patterns), submitted one-sided (open) or two-sided (closed)
+            int npoly = 1 + (int)rng.below(3); std::vector<int> l; bool all_two_sided = true;
+            for (int q = 0; q < npoly; ++q) {
+                int n = KIND == 1 ? 3 : KIND == 2 ? 4 : 2 + (int)rng.below(5);
+                if (n == 2 && !e.cfg.allow_dups) n = 3;
+                std::vector<int> vs; for (int i = 0; i < n; ++i) vs.push_back(e.op_add_vertex());
+                std::vector<int> hes;
+                for (int i = 0; i < n; ++i) { int a = vs[i], b = vs[(i + 1) % n]; bool rev = rng.chance(1, 2); int h = e.op_add_edge(rev ? b : a, rev ? a : b, n == 2); hes.push_back(rev ? h ^ 1 : h); }
+                int f = e.op_add_face(hes, false);
+                bool two = rng.chance(1, 3); all_two_sided &= two;
+                l.push_back(2 * f + (int)rng.below(2)); if (two) l.push_back(l.back() ^ 1);
+            }
+            e.rescan();
+            cls = all_two_sided ? "fresh-polygons-two-sided(closed)" : "fresh-polygons-open";
             return l;
         }
         if (mode <= 7 && !lc.empty()) { cls = "existing-cell's-faces"; return e.s.chf[rng.pick(lc)]; }
